@@ -37,7 +37,13 @@ pub use crate::tdes::{TdesEde2, TdesEde3, TdesEee2, TdesEee3};
 fn weak_key_test(key: u64) -> u8 {
     let mut is_weak = 0u8;
     for &weak_key in crate::consts::WEAK_KEYS {
-        is_weak |= u8::from(key == weak_key);
+        is_weak |= u8::from(same_des_key(key, weak_key));
     }
     is_weak
+}
+
+/// Checks whether two 64-bit keys are the same DES key, i.e. whether they are equal
+/// up to the parity bit (the least significant bit) of each byte, which DES ignores.
+fn same_des_key(k1: u64, k2: u64) -> bool {
+    (k1 ^ k2) & 0xFEFE_FEFE_FEFE_FEFE == 0
 }
